@@ -12,7 +12,7 @@ from vf.sim.model import Model
 
 PROP_ID = 'C27'
 LEVEL = 'exploration'
-BUDGET = {'quick': 420, 'thorough': 10000}
+BUDGET = {'quick': 300, 'thorough': 8000}
 MANIFEST = {
     'engine': 'S',
     'technique': 'stateful PBT: real reload command with an edited '
@@ -28,7 +28,8 @@ RULE = (
     'a history of <= 50 steps over loop / return / advance / deliver, commands '
     'hold, release, trigger, set, pause, resume, and reload steps that write '
     'the edited flow.cylc into the run directory and issue the real reload '
-    'command (also while tasks are preparing); then a fair drain.  Oracle per '
+    'command (also while tasks are preparing); then 8 rounds of the fair '
+    'schedule.  Oracle per '
     'reload that reached the task pool, from snapshots taken immediately '
     'before and after TaskPool.reload and at the end of the command: status, '
     'flow numbers, submit number, held, runahead flag and completed outputs of '
@@ -68,6 +69,7 @@ ASSUMPTIONS = [
 ]
 
 CMD_OPS = ['hold', 'release', 'trigger', 'set', 'pause', 'resume']
+TAIL_ROUNDS = 8
 FIELDS = ['status', 'flows', 'submit_num', 'held', 'runahead', 'outputs']
 
 
@@ -343,7 +345,12 @@ async def _check(case, ctx: Ctx) -> CaseResult:
         drv.after_cmd.append(after_cmd)
         drv.after_loop.append(after_loop)
         await sc.run_schedule()
-        await sc.drain()
+        # a short fair tail (no liveness claim in this property: it only
+        # lets a reload that broke something crash the scheduler)
+        for _ in range(TAIL_ROUNDS):
+            if not sim.running:
+                break
+            await drv.step('round', 0)
         spin = harness_spin(sim)
         if spin:
             classes.add('engine-abort:scheduler-waits-forever-inside-one-call')
@@ -364,7 +371,7 @@ async def _check(case, ctx: Ctx) -> CaseResult:
             uniq.setdefault(v.sig, v)
         return CaseResult(
             list(uniq.values()), nontrivial, sorted(classes),
-            inconclusive=sc.inconclusive or spin,
+            inconclusive=spin,
             info={'flow': drv.flow_text,
                   'reloads': [[r['edit']['kind'] if r['edit'] else None,
                                len(r['before'])] for r in drv.reload_log]})
